@@ -48,8 +48,10 @@ Cause(prog, ref, run, m) ==
   IF FlowOK(ref, run)
   THEN (IF \A i \in 1..Len(ref.chain) : LinkPosOK(prog, run, ref.chain[i], run.chain[i]) \/ (run.chain[i].path = "" /\ run.chain[i].line = 0)
         THEN "position-empty" ELSE "position-wrong")
+  \* the wrapper that lets native code call a Scriggo function (callable.Value) turns an unrecovered PanicError of that
+  \* function into a fatalError whose message is the panic TEXT: the host recovers a string
+  ELSE IF run.variant = "callback" /\ run.outcome = "hostpanic" /\ run.dclass = "string" THEN "callback-panic-escapes"
   ELSE IF VmExplains(m, run) /\ m.why # "" THEN m.why
-  ELSE IF run.variant = "callback" /\ run.outcome = "hostpanic" THEN "callback-panic-escapes"
   ELSE Symptom(ref, run)
 \* (a position-only failure is "explained" by the transcribed newPanic exactly when no position at all is reported; the VM
 \* machine is not run for it)
